@@ -86,8 +86,15 @@ def run_case(case, rng):
 
     hvals = set(h.values())
     hfun = (lambda s: h[s]) if (len(hvals) > 1 or rng.random() < 0.5) else next(iter(hvals))   # a constant may be passed as a number
+    # boundary budgets: an outer-loop cap the search cannot finish within (an honest run then says converged=False).
+    # (Too few inner dynamic-programming sweeps make LAO* stop on its own `assert converged`: it refuses rather than
+    # returns something, so that parameter is left at its default.)
+    cap_kw = {}
+    if rng.random() < 0.12:
+        cap_kw["max_lao_star_iterations"] = rng.choice([1, 2, 5])
+    case.params.update(cap_kw)
     planner = LAOStar(heuristic=hfun, randomize_action_order=rao,
-                      randomize_nextstate_order=rno, event_listener_class=Probe, seed=seed)
+                      randomize_nextstate_order=rno, event_listener_class=Probe, seed=seed, **cap_kw)
     if rng.random() < 0.25:
         # the same planner object first plans on a sibling problem over the same labels with one more absorbing
         # state; nothing of that run may leak into the judged one
@@ -124,6 +131,14 @@ def run_case(case, rng):
                        explicit_graph_nodes=len(res.state_value_map),
                        initial_value=float(res.initial_value))
 
+    if "max_lao_star_iterations" in cap_kw and not bool(res.converged):
+        # out of budget and said so: only the upper-bound clause applies (checked online and on the final map)
+        case.count("capped_runs_reporting_not_converged")
+        for s, v in res.state_value_map.items():
+            case.check(v >= Vstar[s] - tol, "state_value_map-below-optimal", f"value[{s!r}]={v!r} V*={Vstar[s]!r}")
+        return
+    if cap_kw:
+        case.count("capped_runs_reporting_converged")
     case.check(bool(res.converged), "converged=False", "")
     iv_ref = sum(p * Vstar[s] for s, p in sp.init)
     case.check(abs(float(res.initial_value) - iv_ref) <= tol, "initial_value!=optimal",
